@@ -1,1 +1,371 @@
-// harnesses (h_posix)
+// Harnesses living inside `mod posix`: they see split_path, PrepExec, CVec.
+#[cfg(kani)]
+mod vh_posix {
+    use super::*;
+    use crate::mk;
+    use crate::mk::proc_ as mp;
+    use std::os::unix::ffi::OsStringExt;
+
+    pub const PMAX: usize = 5;
+
+    /// reference tokenizer: the non-empty maximal runs of non-':' bytes of p[..n], in order
+    /// -> (start, len) of up to 3 entries
+    pub fn ref_entries(p: &[u8; PMAX], n: usize) -> ([(usize, usize); 3], usize) {
+        let mut out = [(0usize, 0usize); 3];
+        let mut cnt = 0;
+        let mut i = 0;
+        let mut start = 0;
+        while i <= PMAX {
+            if i <= n {
+                let at_end = i == n;
+                if at_end || p[i] == b':' {
+                    if i > start && cnt < 3 {
+                        out[cnt] = (start, i - start);
+                        cnt += 1;
+                    }
+                    start = i + 1;
+                }
+            }
+            i += 1;
+        }
+        (out, cnt)
+    }
+
+    /// split_path(p) == reference, piece by piece, for every p of length n <= 5
+    /// over all byte values.
+    #[kani::proof]
+    fn h_split() {
+        let p: [u8; PMAX] = kani::any();
+        let n: usize = kani::any();
+        kani::assume(n <= PMAX);
+        let (want, cnt) = ref_entries(&p, n);
+        let mut it = split_path(OsStr::from_bytes(&p[..n]));
+        let mut k = 0;
+        while k < 3 {
+            let got = it.next();
+            if k < cnt {
+                let (s, l) = want[k];
+                let ok = match got {
+                    Some(piece) => {
+                        let b = piece.as_bytes();
+                        let mut same = b.len() == l;
+                        let mut j = 0;
+                        while j < PMAX {
+                            if same && j < l && b[j] != p[s + j] {
+                                same = false;
+                            }
+                            j += 1;
+                        }
+                        same
+                    }
+                    None => false,
+                };
+                assert!(ok, "C15/split-path-entries: PATH tokenizer does not yield the non-empty entries in order");
+            } else {
+                assert!(got.is_none(), "C15/split-path-no-extra: PATH tokenizer yields an entry that is not a non-empty run between colons");
+            }
+            k += 1;
+        }
+        kani::cover!(cnt == 3, "COVER/three-path-entries");
+        kani::cover!(cnt == 0 && n > 0, "COVER/only-empty-entries");
+    }
+
+    // expected candidates, computed by the harness from the reference tokenizer
+    pub static mut CAND: [[u8; mp::PATHMAX]; 3] = [[0; mp::PATHMAX]; 3];
+    pub static mut CAND_LEN: [usize; 3] = [0; 3];
+    pub static mut NCAND: usize = 0;
+
+    pub unsafe fn on_exec_attempt() {
+        // called by the model for the attempt that STARTS; failed attempts are checked below
+    }
+
+    /// the k-th recorded exec attempt must be the k-th expected candidate
+    pub unsafe fn check_attempts() {
+        let mut k = 0;
+        while k < 3 {
+            if k < mp::EXEC_ATTEMPTS {
+                let mut same = k < NCAND && mp::EXEC_PATH_LEN[k] == CAND_LEN[k];
+                let mut j = 0;
+                while j < mp::PATHMAX {
+                    if same && j < CAND_LEN[k] && mp::EXEC_PATH[k][j] != CAND[k][j] {
+                        same = false;
+                    }
+                    j += 1;
+                }
+                vcheck!(C15, same, "C15/candidate-order: an exec attempt is not the next <entry>/<name> candidate in PATH order (or a candidate was skipped, repeated or invented)");
+            }
+            k += 1;
+        }
+    }
+
+    /// Program lookup through the real prep_exec: command name of 1..=2 bytes over
+    /// {'/', 'c'}, PATH unset or of exactly `n` symbolic bytes over {':', 'd', '/'};
+    /// every candidate's fate symbolic (starts / ENOENT / EACCES / ENOTDIR).
+    ///
+    /// The *shape* (which positions of PATH are ':', whether PATH is set, the
+    /// command-name form) is concrete per call and case-split by the caller: with
+    /// symbolic separators every entry length, buffer size and memcpy becomes
+    /// symbolic (measured: SAT back end out of memory even for a 1-byte PATH).
+    /// Every candidate's fate stays symbolic.
+    pub unsafe fn lookup_case(n: usize, colon_mask: u8, path_set: bool, c0: u8, c1: u8, two_byte_cmd: bool, via_prep_exec: bool) {
+        mk::reset();
+        mk::init_std_fds();
+        mp::IN_CHILD = true; // the closure returned by prep_exec runs after fork
+        let cmd: Vec<u8> = if two_byte_cmd { vec![c0, c1] } else { vec![c0] };
+        let has_slash = c0 == b'/' || (two_byte_cmd && c1 == b'/');
+        let mut p = [0u8; PMAX];
+        let mut i = 0;
+        while i < PMAX {
+            if i < n {
+                let x: u8 = if colon_mask & (1 << i) != 0 {
+                    b':'
+                } else {
+                    // concrete: a symbolic non-separator byte still makes the
+                    // tokenizer's `c == b':'` test symbolic for symex; arbitrary
+                    // byte values are covered by h_split
+                    b'd'
+                };
+                p[i] = x;
+                mk::env::PATH_VAL[i] = x;
+            }
+            i += 1;
+        }
+        mk::env::PATH_VAL[n] = 0;
+        mk::env::PATH_SET = path_set;
+        let search = !has_slash && mk::env::PATH_SET && n > 0;
+        // expected candidates
+        if search {
+            let (ents, cnt) = ref_entries(&p, n);
+            NCAND = cnt;
+            let mut k = 0;
+            while k < 3 {
+                if k < cnt {
+                    let (s, l) = ents[k];
+                    let mut j = 0;
+                    while j < PMAX {
+                        if j < l {
+                            CAND[k][j] = p[s + j];
+                        }
+                        j += 1;
+                    }
+                    CAND[k][l] = b'/';
+                    CAND[k][l + 1] = c0;
+                    if two_byte_cmd {
+                        CAND[k][l + 2] = c1;
+                    }
+                    CAND_LEN[k] = l + 1 + cmd.len();
+                }
+                k += 1;
+            }
+        } else {
+            NCAND = 1;
+            CAND[0][0] = c0;
+            if two_byte_cmd {
+                CAND[0][1] = c1;
+            }
+            CAND_LEN[0] = cmd.len();
+        }
+        // each candidate's fate
+        let mut k = 0;
+        while k < 3 {
+            let f: u8 = kani::any();
+            kani::assume(f < 4);
+            mp::EXEC_VERDICT[k] = match f {
+                0 => 0,
+                1 => libc::ENOENT,
+                2 => libc::EACCES,
+                _ => libc::ENOTDIR,
+            };
+            k += 1;
+        }
+        mp::AT_EXEC = Some(check_attempts);
+        let cmd_os = OsString::from_vec(cmd);
+        let args = [OsString::from("x")];
+        let res = if via_prep_exec {
+            // the search decision itself (slash / PATH unset / PATH empty) through the real prep_exec
+            match prep_exec(&cmd_os, &args, None::<&[OsString]>) {
+                Ok(f) => f(),
+                Err(e) => {
+                    vcheck!(C15, false, "C15/prep-succeeds: preparing a NUL-free command failed");
+                    std::mem::forget(e);
+                    return;
+                }
+            }
+        } else {
+            // the lookup proper: PrepExec built directly with the PATH value
+            let argvec = match CVec::new(&args) {
+                Ok(v) => v,
+                Err(e) => {
+                    std::mem::forget(e);
+                    return;
+                }
+            };
+            let sp = if search { Some(OsString::from_vec(p[..n].to_vec())) } else { None };
+            PrepExec::new(cmd_os, argvec, None, sp).exec()
+        };
+        // only reachable when no candidate started
+        check_attempts();
+        kani::cover!(search && NCAND == 0, "COVER/path-of-only-empty-entries");
+        kani::cover!(search && NCAND == 2, "COVER/two-candidates-all-fail");
+        kani::cover!(!search, "COVER/no-search");
+        vcheck!(C15, mp::EXEC_ATTEMPTS == NCAND, "C15/all-candidates-tried: the lookup stopped before trying every candidate although none started");
+        match res {
+            Ok(()) => {
+                vcheck!(C15, false, "C15/never-ok-without-exec: the lookup returned success although no program image was started (the child would fall through into the caller's code)");
+            }
+            Err(e) => {
+                let code = e.raw_os_error();
+                let last = if NCAND > 0 { Some(mp::EXEC_VERDICT[NCAND - 1]) } else { None };
+                vcheck!(C15, NCAND == 0 || code == last, "C15/os-error-of-last-candidate: the error returned is not the operating-system error of the last candidate tried");
+                vcheck!(C15, code.is_some() && code != Some(0), "C15/launch-fails-with-os-error: the launch failed without an operating-system error");
+                std::mem::forget(e);
+            }
+        }
+    }
+
+    /// all colon masks of an n-byte PATH, each with the shape concrete
+    pub unsafe fn lookup_all_masks(n: usize, c0: u8, c1: u8, two: bool) {
+        let m: u8 = kani::any();
+        kani::assume((m as usize) < (1usize << n));
+        let mut k: u8 = 0;
+        while (k as usize) < (1usize << n) {
+            if m == k {
+                lookup_case(n, k, true, c0, c1, two, false);
+            }
+            k += 1;
+        }
+    }
+
+    macro_rules! lookup_harness {
+        ($name:ident, $n:expr, $c0:expr, $c1:expr, $two:expr) => {
+            #[kani::proof]
+            fn $name() {
+                mk::link_model();
+                unsafe { lookup_all_masks($n, $c0, $c1, $two) }
+            }
+        };
+    }
+    lookup_harness!(h_lookup_1, 1, b'c', b'c', false);
+    lookup_harness!(h_lookup_2, 2, b'c', b'c', true);
+    lookup_harness!(h_lookup_3, 3, b'c', b'c', false);
+    lookup_harness!(h_lookup_4, 4, b'c', b'c', false);
+
+    /// Stub for std::env::var_os (std's implementation -- env lock, getenv,
+    /// CStr scan -- costs 3.6 M symex steps and exhausts the SAT back end):
+    /// answers from the model environment.
+    pub fn var_os_model<K: AsRef<OsStr>>(key: K) -> Option<OsString> {
+        unsafe {
+            if key.as_ref().as_bytes() == b"PATH" && mk::env::PATH_SET {
+                let mut v = Vec::new();
+                let mut i = 0;
+                while i < mk::env::PATHVAL_MAX && mk::env::PATH_VAL[i] != 0 {
+                    v.push(mk::env::PATH_VAL[i]);
+                    i += 1;
+                }
+                Some(OsString::from_vec(v))
+            } else {
+                None
+            }
+        }
+    }
+
+    /// no search: a name containing a slash, PATH unset, PATH empty; and a
+    /// search through the real prep_exec with PATH = "d:"
+    #[kani::proof]
+    #[kani::stub(std::env::var_os, var_os_model)]
+    fn h_lookup_nosearch() {
+        mk::link_model();
+        unsafe {
+            let k: u8 = kani::any();
+            kani::assume(k < 5);
+            if k == 0 {
+                lookup_case(2, 0b10, true, b'/', b'c', true, true);
+            } else if k == 1 {
+                lookup_case(2, 0b10, true, b'c', b'/', true, true);
+            } else if k == 2 {
+                lookup_case(2, 0b10, false, b'c', b'c', false, true);
+            } else if k == 3 {
+                lookup_case(0, 0, true, b'c', b'c', false, true);
+            } else {
+                lookup_case(2, 0b10, true, b'c', b'c', false, true);
+            }
+        }
+    }
+
+    // C17: the PATH lookup in the child reuses the buffer sized before fork
+    use std::alloc::{GlobalAlloc, Layout, System};
+    pub unsafe fn obs_alloc(layout: Layout) -> *mut u8 {
+        mp::ALLOCS += 1;
+        System.alloc(layout)
+    }
+    pub unsafe fn obs_alloc_zeroed(layout: Layout) -> *mut u8 {
+        mp::ALLOCS += 1;
+        System.alloc_zeroed(layout)
+    }
+    pub unsafe fn obs_realloc(ptr: *mut u8, layout: Layout, new_size: usize) -> *mut u8 {
+        mp::ALLOCS += 1;
+        System.realloc(ptr, layout, new_size)
+    }
+
+    /// PATH shapes of 4 bytes (longest entry first / last / only empty entries), every
+    /// candidate failing or one starting: no allocation from the moment the exec
+    /// closure starts running (= after fork) until exec / return.
+    #[kani::proof]
+    #[kani::stub(std::alloc::alloc, obs_alloc)]
+    #[kani::stub(std::alloc::alloc_zeroed, obs_alloc_zeroed)]
+    #[kani::stub(std::alloc::realloc, obs_realloc)]
+    fn h_alloc_path() {
+        mk::link_model();
+        unsafe {
+            let m: u8 = kani::any();
+            kani::assume(m < 16);
+            let mut k: u8 = 0;
+            while k < 16 {
+                if m == k {
+                    alloc_path_case(4, k);
+                }
+                k += 1;
+            }
+        }
+    }
+
+    pub unsafe fn alloc_path_case(n: usize, colon_mask: u8) {
+        mk::reset();
+        mk::init_std_fds();
+        let mut p = [b'd'; PMAX];
+        let mut i = 0;
+        while i < n {
+            if colon_mask & (1 << i) != 0 {
+                p[i] = b':';
+            }
+            i += 1;
+        }
+        let mut k = 0;
+        while k < 3 {
+            let f: u8 = kani::any();
+            kani::assume(f < 3);
+            mp::EXEC_VERDICT[k] = match f {
+                0 => 0,
+                1 => libc::ENOENT,
+                _ => libc::EACCES,
+            };
+            k += 1;
+        }
+        let args = [OsString::from("x")];
+        let argvec = match CVec::new(&args) {
+            Ok(v) => v,
+            Err(e) => {
+                std::mem::forget(e);
+                return;
+            }
+        };
+        let prep = PrepExec::new(OsString::from("cc"), argvec, None, Some(OsString::from_vec(p[..n].to_vec())));
+        // fork happens here
+        mp::IN_CHILD = true;
+        mp::ALLOC_AT_FORK = mp::ALLOCS;
+        let res = prep.exec();
+        vcheck!(C17, mp::ALLOCS == mp::ALLOC_AT_FORK, "C17/no-alloc-in-lookup: the PATH lookup allocated in the child (the candidate buffer was not sized before fork)");
+        kani::cover!(mp::EXEC_ATTEMPTS == 2, "COVER/two-candidates-assembled");
+        std::mem::forget(res);
+    }
+}
